@@ -70,6 +70,21 @@ def index_family():
     return out
 
 
+def delete_m2m_family():
+    """deterministic family: a model with several many-to-many fields is deleted (one DROP TABLE per join table)"""
+    out = []
+    for n in (2, 3, 4):
+        alpha = {'name': 'Alpha', 'table': 'vapp_alpha', 'unique_together': [], 'index_together': [], 'indexes': [],
+                 'constraints': [], 'fields': [fld('id', 'AutoField', primary_key=True), fld('a', 'IntegerField', null=True)]}
+        doomed = {'name': 'Doomed', 'table': 'vapp_doomed', 'unique_together': [], 'index_together': [], 'indexes': [],
+                  'constraints': [], 'fields': [fld('id', 'AutoField', primary_key=True)] +
+                  [fld(nm, 'ManyToManyField', 'vapp.Alpha') for nm in ['tags', 'authors', 'editors', 'zones'][:n]]}
+        out.append({'spec0': {'apps': [{'id': 'vapp', 'models': [alpha, doomed]}]},
+                    'spec1': {'apps': [{'id': 'vapp', 'models': [alpha]}]},
+                    'muts': [{'t': 'DeleteModel', 'model': 'Doomed'}], 'rows': False, 'family': 'delete-m2m'})
+    return out
+
+
 def set_order_sensitive(case):
     """a ChangeMeta(unique_together/index_together) that adds or removes at least two entries"""
     old = {}
@@ -121,8 +136,8 @@ def run(ctx):
                 'run in %d processes with different PYTHONHASHSEED, each doing `evolve --sql`, `evolve --hint`, '
                 '`evolve --execute`; non-trivial = the preview has at least one statement' % len(seeds))
     flag = ctx.variant.get('together_iteration')
-    n = 76 if quick else 600
-    cases = [{'case': c, 'seed': i} for i, c in enumerate(together_family() + index_family())]
+    n = 79 if quick else 600
+    cases = [{'case': c, 'seed': i} for i, c in enumerate(together_family() + index_family() + delete_m2m_family())]
     tries = 0
     while len(cases) < n + 10 and tries < n * 6:
         tries += 1
